@@ -174,6 +174,15 @@ def bounded(b):
     _tempo_files(b)
 
 
+def closed_ticks_helper():
+    """the seconds <-> ticks helper named in the property's mechanism, for scalars and arrays alike (shared with C12): nearest tick, array = scalar"""
+    from contracts import c12
+    return c12.closed_ticks_arrays()
+
+
+CLOSED = [("seconds_to_ticks_helper_scalars_and_arrays_nearest_tick", closed_ticks_helper)]
+
+
 def _dispatcher(b):
     """load_performance (format dispatch) hands its options to the MIDI reader as named: merge_tracks merges, first_note_at_zero only shifts"""
     import os
@@ -181,7 +190,8 @@ def _dispatcher(b):
     import tempfile
     import partitura as pt
     import partitura.performance as pf
-    pps = _build([dict(notes=[(60, 0.5, 1.0, 64, 0), (64, 1.0, 1.5, 70, 0)], controls=[(64, 0.7, 127)], programs=[]),
+    # the pedal is pressed and released in the lead-in (all its events before the first note); the soft pedal moves only afterwards
+    pps = _build([dict(notes=[(60, 0.5, 1.0, 64, 0), (64, 1.0, 1.5, 70, 0)], controls=[(64, 0.1, 127), (64, 0.3, 0), (67, 0.7, 50), (67, 1.2, 90), (1, 0.2, 33), (1, 0.8, 99)], programs=[]),
                   dict(notes=[(72, 0.75, 1.25, 100, 2), (48, 0.5, 3.0, 30, 3)], controls=[], programs=[])])
     d = tempfile.mkdtemp(prefix="c06_")
     try:
@@ -199,9 +209,25 @@ def _dispatcher(b):
             first = min(n["note_on"] for n in perf.performedparts[0].notes)
             ref_first = min(n["note_on"] for n in ref.performedparts[0].notes)
             if zero:
-                good = good and abs(first - max(0.0, ref_first - min(ref_first, min([c["time"] for c in ref.performedparts[0].controls] or [ref_first])))) < 1e-6
+                good = good and abs(first) < 1e-9  # first_note_at_zero: the first NOTE is at zero (events before it are folded into time 0)
             else:
                 good = good and abs(first - ref_first) < 1e-9
+            if zero:
+                # the state of every controller at and after the first note is what it was in the file, moved with the notes
+                sh = ref_first
+                def state(cs, num, t):
+                    v = None
+                    for c in sorted((c for c in cs if c["number"] == num), key=lambda c: c["time"]):
+                        if c["time"] <= t + 1e-9:
+                            v = c["value"]
+                    return v
+                bad = None
+                for num in sorted({c["number"] for c in ref.performedparts[0].controls}):
+                    for t in (0.0, 0.1, 0.25, 0.4, 0.75, 1.0):
+                        w, g = state(ref.performedparts[0].controls, num, t + sh), state(perf.performedparts[0].controls, num, t)
+                        if w is not None and g != w:
+                            bad = bad or "controller %d at %.2f s after the first note: %r, in the file %r" % (num, t, g, w)
+                b.case("dispatch/controller_states_move_with_the_notes", bad is None, case, bad or "")
             b.case("dispatch/options_reach_the_midi_reader_as_named", good, case, "%d parts on tracks %r, first note of the first part at %.4f s (MIDI reader: %d parts, %.4f s)" % (
                 nparts, tracks, first, len(ref.performedparts), ref_first))
     finally:
